@@ -462,7 +462,7 @@ func (s *Seq) checkHooks(exps []*shapes.Rec, accepted bool, classes map[string]b
 	s.hookOn = false
 	firstMut := s.W.FS.FirstMut
 	if !accepted {
-		if classes[model.EInvalid] && len(classes) == 1 && firstMut != 0 && !s.Cfg.Async && !s.bulkHooks {
+		if classes[model.EInvalid] && len(classes) == 1 && firstMut != 0 && !s.Cfg.Async && !s.smallAsync && !s.bulkHooks {
 			s.fail("hooks", "storage-touched-for-invalid-object", "an invalid object caused a file mutation")
 		}
 		return
@@ -494,7 +494,7 @@ func (s *Seq) checkHooks(exps []*shapes.Rec, accepted bool, classes map[string]b
 		if vjson != model.JSON(exp) {
 			s.fail("hooks", "validate-saw-untransformed", "lid=%d: Validate saw %s, expected the transformed canonical value %s", exp.Lid, vjson, model.JSON(exp))
 		}
-		if !s.Cfg.Async && !s.bulkHooks && firstMut != 0 && vSeq > firstMut {
+		if !s.Cfg.Async && !s.smallAsync && !s.bulkHooks && firstMut != 0 && vSeq > firstMut {
 			s.fail("hooks", "stored-before-validate", "lid=%d: a file was modified (event %d) before Validate ran (event %d)", exp.Lid, firstMut, vSeq)
 		}
 		s.stat("hooks-checked")
